@@ -5,7 +5,7 @@
 (* stands for exactly one rune (the harness owns the table):               *)
 (*   "(" ")" "[" "]" "," ";"   delimiters        "Q"  the double quote     *)
 (*   "SP" "TAB" "NBSP" "IDSP" "CR"  Unicode spaces   "NL"  line feed       *)
-(*   "a" "b" "c" "x" "y" "n" "f" "i" ...  letters   "E"  a non-ASCII letter *)
+(*   "a".."z" "A".."Z" letters             "Eacute"  a non-ASCII letter    *)
 (*   "0".."9" digits   "-" "+" signs   "." "_" "!"                         *)
 (*   "<" "=" ">" "&" "|" "*" "/" "%"  operator characters                  *)
 (*   "BS" backslash, "CTL" a control character, "U" any other rune         *)
@@ -19,7 +19,9 @@ Spaces == {"SP", "TAB", "NBSP", "IDSP", "CR", "NL"}
 IsSpace(c) == c \in Spaces
 Delims == {"(", ")", "[", "]", ";", ","}
 Letters == {"a", "b", "c", "d", "e", "f", "g", "h", "i", "j", "k", "l", "m", "n", "o", "p", "q", "r", "s", "t",
-            "u", "v", "w", "x", "y", "z", "E", "K", "T"}
+            "u", "v", "w", "x", "y", "z",
+            "A", "B", "C", "D", "E", "F", "G", "H", "I", "J", "K", "L", "M", "N", "O", "P", "Q_", "R", "S", "T", "U_", "V", "W", "X", "Y", "Z",
+            "Eacute"}
 Digits == {"0", "1", "2", "3", "4", "5", "6", "7", "8", "9"}
 OpChars == {"<", "=", ">", "&", "|", "*", "/", "%", "!", "+", "-"}
 
